@@ -32,7 +32,8 @@ N1, N2 = 128, 4096
 KS = list(range(0, 9))
 KS2 = (0, 1, 2, 5, 8)     # depth >= 2
 SLACK = 16
-CONSUMERS = ('islice', 'head', 'rowslice', 'look', 'see', 'slice', 'index')
+CONSUMERS = ('islice', 'head', 'rowslice', 'look', 'see', 'slice', 'index', 'look(simple)', 'look(minimal)', 'lookstr',
+             'repr(config)')
 READAHEAD = {'unpackdict(sample)': 2, 'unpackdict(sample1)': 1, 'unpackdict(sample0)': 0, 'fromdicts(list,sample)': 3}
 
 _STREAM = None
@@ -73,6 +74,25 @@ def consume(view, consumer, k):
         if k == 0:
             return 0
         return len(repr(etl.see(view, limit=k))) and k + 1
+    if consumer in ('look(simple)', 'look(minimal)'):
+        if k == 0:
+            return 0
+        return len(repr(etl.look(view, limit=k, style=consumer[5:-1]))) and k + 1
+    if consumer == 'lookstr':
+        if k == 0:
+            return 0
+        return len(str(etl.lookstr(view, limit=k))) and k + 1
+    if consumer == 'repr(config)':
+        # repr() of a table renders it through look() with the configured style and limit
+        if k == 0:
+            return 0
+        import petl.config
+        saved = (petl.config.look_style, petl.config.look_limit)
+        petl.config.look_style, petl.config.look_limit = ('minimal' if k % 2 else 'simple'), k
+        try:
+            return len(repr(view if isinstance(view, etl.Table) else etl.wrap(view))) and k + 1
+        finally:
+            petl.config.look_style, petl.config.look_limit = saved
     raise ValueError(consumer)
 
 
